@@ -133,6 +133,9 @@ pub fn main_with(p: Prop) {
                     continue;
                 }
                 writeln!(out, "{}", exec_guarded(p.exec, line)).unwrap();
+                // flushed per case: if the process dies or hangs, the lines already printed tell check.py
+                // exactly which case killed it
+                out.flush().unwrap();
             }
         }
         Some("shrink") => {
